@@ -48,6 +48,7 @@ IDIOMS = {
     'I7': 'V.extend(E)  =>  idiom_extend(&mut V, E)   (Vec<u8>::extend of a byte slice/array/Vec reference)',
     'I8': 'E.iter().sum::<T>()  =>  idiom_sum_T(E)',
     'I9': 'X.checked_sub(Y).unwrap_or_default()  =>  idiom_checked_sub_or_default(X, Y)',
+    'I10': '&sha256d::Hash::hash(&X)[A..B]  =>  &idiom_sha256d_slice(&X, A, B)   (Index<Range> on the hash newtype)',
     'A1': 'abstract-expression: `expr` => havoc::<T>() (unconstrained value)',
 }
 
@@ -251,6 +252,7 @@ def build_fn(repo, blk, log):
     loops = src.loops_in(it.body_start, it.body_end)
     item_id = '%s::%s' % (container if container not in ('-', '') else rel.split('/')[-1], name)
     item_id = re.sub(r'^(impl|trait)(<[^>]*>)?\s+', '', item_id)
+    item_id = re.sub(r"<[^<>]*>", '', item_id)
     body_rel = it.body_start - base
 
     for (word, rest, raw, tline) in blk.subs:
@@ -451,6 +453,11 @@ def apply_idiom(ed, text, base, body_rel, loops, rest, item_id, log, rel, src):
             if not h:
                 raise GenError('I9 shape mismatch: %s' % flat)
             new = 'idiom_checked_sub_or_default(%s, %s)' % h.groups()
+        elif rule == 'I10':
+            h = re.match(r'^&sha256d::Hash::hash\(&(\w+)\)\[(\d+)\.\.(\d+)\]$', flat)
+            if not h:
+                raise GenError('I10 shape mismatch: %s' % flat)
+            new = '&idiom_sha256d_slice(&%s, %s, %s)' % h.groups()
         elif rule == 'A1':
             if len(parts) != 2:
                 raise GenError('A1 needs `expr` => `Type`')
